@@ -828,13 +828,37 @@ func c09Reload(r *sim.Run, s *hook.Sched) {
 		return
 	}
 	n := 2 + tp.Choose("nworkers", 2)
+	// policy change of the reload: 0 = the blocklist grows; 1 = blocklist [10/8] -> allowlist
+	// [192.168/16] with an empty blocklist; 2 = the reverse of 1. In 1 and 2 one worker brings a
+	// covert address that BOTH policies refuse (10.0.0.1): whatever the interleaving, a serial
+	// execution refuses it, so it must not become a valid registration (a mixture of the old
+	// allowlist flag with the new lists, or the reverse, would admit it).
+	kind := tp.Choose("reload-kind", 3)
+	bothRefuse := "10.0.0.1:80"
+	newConf := &RegConfig{EnableIPv4: true, EnableIPv6: true, CovertBlocklistSubnets: []string{"10.0.0.0/8", "203.0.113.0/24"}}
+	switch kind {
+	case 1:
+		newConf = &RegConfig{EnableIPv4: true, EnableIPv6: true, CovertAllowlistSubnets: []string{"192.168.0.0/16"}}
+	case 2:
+		w.rm.RegConfig.CovertBlocklistSubnets = nil
+		w.rm.RegConfig.CovertAllowlistSubnets = []string{"192.168.0.0/16"}
+		if err := w.rm.RegConfig.ParseBlocklists(); err != nil {
+			r.Fail("harness/c09-reload-conf", "%v", err)
+			return
+		}
+		newConf = &RegConfig{EnableIPv4: true, EnableIPv6: true, CovertBlocklistSubnets: []string{"10.0.0.0/8"}}
+	}
+	r.Logf("reload kind %d", kind)
 	for i := 0; i < n; i++ {
 		i := i
+		covert := "203.0.113.7:443"
+		if kind != 0 && i == 0 {
+			covert = bothRefuse
+		}
 		w.spawn(fmt.Sprintf("worker%d", i), func() {
-			w.rm.ingestRegistration(w.mkReg(i%2, pb.TransportType_Min, false, "203.0.113.7:443"))
+			w.rm.ingestRegistration(w.mkReg(i%2, pb.TransportType_Min, false, covert))
 		})
 	}
-	newConf := &RegConfig{EnableIPv4: true, EnableIPv6: true, CovertBlocklistSubnets: []string{"10.0.0.0/8", "203.0.113.0/24"}}
 	newConf.ParseBlocklists()
 	w.spawn("reload", func() { w.rm.OnReload(newConf) })
 	w.spawn("handler", func() {
@@ -858,8 +882,18 @@ func c09Reload(r *sim.Run, s *hook.Sched) {
 		r.Fail("C09/not-finished", "tasks did not finish (%v): %v", st, s.LiveNames())
 		return
 	}
-	if got, _ := w.rm.ParseOrResolveBlocklisted("203.0.113.7:443"); got != "" {
-		r.Fail("C09/reload-lost", "after OnReload completed the new covert blocklist is not in force")
+	if got, _ := w.rm.ParseOrResolveBlocklisted("203.0.113.7:443"); got != "" && kind != 2 {
+		r.Fail("C09/reload-lost", "after OnReload completed the new covert policy is not in force (203.0.113.7:443 admitted)")
+	}
+	if kind != 0 {
+		r.Probe("reload/blocklist-to-allowlist-or-back")
+		for _, a := range w.anns {
+			if a.kind == "new" && a.obj.Covert == bothRefuse {
+				r.Fail("C09/not-serializable/covert-refused-by-old-and-new-policy-admitted",
+					"reload kind %d: the registration with covert %s became valid and was announced, although the policy before the reload and the policy after it both refuse that address (the admission saw a mixture of the two)", kind, bothRefuse)
+				return
+			}
+		}
 	}
 	news := map[string]int{}
 	for _, a := range w.anns {
